@@ -894,6 +894,17 @@ impl RootRef<'_> {
             description: "file creation path has trailing slash".into(),
         })?;
 
+        // The kernel silently ignores O_CREAT if O_PATH is set, turning the
+        // "creation" into a plain open of the final component -- and for a
+        // final component of ".." that is an O_PATH descriptor for the
+        // directory above the resolved parent (for "..", above the root).
+        if flags.contains(OpenFlags::O_PATH) {
+            Err(ErrorImpl::InvalidArgument {
+                name: "flags".into(),
+                description: "O_PATH cannot be used to create a file".into(),
+            })?
+        }
+
         // XXX: openat2(2) supports doing O_CREAT on trailing symlinks without
         // O_NOFOLLOW. We might want to expose that here, though because it
         // can't be done with the emulated backend that might be a bad idea.
